@@ -1,160 +1,92 @@
 (* C27 -- Row id allocation never collides or creates ghost rows.
    Statements only; proofs are in Proofs/RowIds_proofs.v; the model is Model/RowIds.v.
-   [fill_row_ids] is GristGen.RowIds_gen.fill_row_ids: the id-filling loop of
+   [fill_row_ids] is GristGen.RowIds_gen.fill_row_ids: the validation loop and the id-filling loop of
    useractions.py UserActions.doBulkAddOrReplace, translated from /repo on every run.
 
-   The full statements are [alloc_full f] and [rejects_full f] (Model/RowIds.v) for an implementation
-   f replace rows request:
+   The full statements are [alloc_full f] and [rejects_full f] (Model/RowIds.v) for f replace rows request:
      alloc_full:   an accepted request returns distinct ids, none of which existed, explicit ids are
-                   honoured, automatic ids exceed every existing id, rows afterwards = existing + returned;
+                   honoured, automatic ids exceed every existing id, rows afterwards = existing + returned
+                   (for ReplaceTableData: with no existing rows);
      rejects_full: a request with an explicit id that is over 1,000,000, is 0, repeats, or (for adds)
                    already exists is rejected and the table is unchanged.
-   The unchanged code ([do_bulk_add_or_replace]) violates both: C27_refuted_* below, with the positive
-   statements under the exact hypotheses that exclude the defects (C27_*_partial).  The repaired code of
-   notes/proposed_fixes/C27-rowid-validation.diff ([do_bulk_add_or_replace_fixed]) satisfies both in full
-   (C27_alloc, C27_rejects ... _fixed).  After the patch is applied: make the bridging lemma of
-   Proofs/RowIds_proofs.v Part 1 target the repaired loop, drop the _refuted/_partial theorems and the
-   known-findings entries, and set VARIANT = 'fixed' in harness/props/c27.py. *)
+   Both hold with no hypothesis on the request since fix e346da4.  Before it the loop violated both
+   (repeated explicit id, explicit 0, automatic id colliding with a later explicit id): those witnesses are
+   kept below as regression Examples and are replayed on the implementation first by harness/props/c27.py. *)
 From Coq Require Import ZArith List Bool Lia.
 Import ListNotations.
 Require Import Grist.Lib.PyPrelude Grist.Lib.PyMonad Grist.Model.RowIds GristGen.RowIds_gen
                Grist.Proofs.RowIds_proofs.
 Open Scope Z_scope.
 
-(* ---- tie: the model's loop IS the source's loop ----------------------------------------------------- *)
+(* ---- tie: the model's loops ARE the source's loops ---------------------------------------------------- *)
 
 Theorem C27_model_is_source_loop : forall (row_ids : list (option Z)) (next : Z),
   fill_row_ids row_ids next =
-  match fill next row_ids with PyOk l => PyOk (map Some l) | PyErr e => PyErr e end.
-Proof. exact fill_row_ids_is_fill. Qed.
+  match alloc next row_ids with PyOk l => PyOk (map Some l) | PyErr e => PyErr e end.
+Proof. exact fill_row_ids_is_alloc. Qed.
 
-(* ---- the unchanged code: refutations (each witness is replayed on the implementation by the check) --- *)
+(* ---- the property ------------------------------------------------------------------------------------- *)
 
-Theorem C27_refuted_repeat :
-  do_bulk_add_or_replace false [] [Some 5; Some 5] = Accepted [5; 5] [5] /\
-  ~ alloc_statement (do_bulk_add_or_replace false) [] [Some 5; Some 5] /\
-  ~ rejects_statement (do_bulk_add_or_replace false) true [] [Some 5; Some 5].
-Proof. exact refuted_repeat. Qed.
-
-Theorem C27_refuted_zero :
-  do_bulk_add_or_replace false [] [Some 0] = Accepted [0] [] /\
-  ~ alloc_statement (do_bulk_add_or_replace false) [] [Some 0] /\
-  ~ rejects_statement (do_bulk_add_or_replace false) true [] [Some 0].
-Proof. exact refuted_zero. Qed.
-
-Theorem C27_refuted_auto_collision :
-  do_bulk_add_or_replace false [1; 2] [None; Some 3; None] = Accepted [3; 3; 5] [1; 2; 3; 5] /\
-  ~ alloc_statement (do_bulk_add_or_replace false) [1; 2] [None; Some 3; None] /\
-  ~ bad_request true [1; 2] [None; Some 3; None].
-Proof. exact refuted_auto_collision. Qed.
-
-Theorem C27_refuted_replace :
-  do_bulk_add_or_replace true [1; 2] [Some 5; Some 5] = Accepted [5; 5] [5] /\
-  do_bulk_add_or_replace true [1; 2] [Some 0] = Accepted [0] [] /\
-  do_bulk_add_or_replace true [1; 2] [None; Some 1; None] = Accepted [1; 1; 3] [1; 3].
-Proof. exact refuted_replace. Qed.
-
-Theorem C27_alloc_refuted : ~ alloc_full do_bulk_add_or_replace.
-Proof. exact alloc_full_refuted. Qed.
-
-Theorem C27_rejects_refuted : ~ rejects_full do_bulk_add_or_replace.
-Proof. exact rejects_full_refuted. Qed.
-
-(* ---- the unchanged code: what does hold ------------------------------------------------------------- *)
-
-(* BulkAddRecord/AddRecord: full conclusion when no explicit id is 0, explicit ids do not repeat, and no
-   explicit id equals an automatic id handed out earlier in the same request. *)
-Theorem C27_alloc_partial : forall rs req, wf_rows rs ->
-  ~ In 0 (explicit_ids req) -> NoDup (explicit_ids req) -> clash_free (next_row_id rs) [] req = true ->
-  alloc_statement (do_bulk_add_or_replace false) rs req.
-Proof. exact alloc_partial. Qed.
-
-(* ReplaceTableData: same, with no existing rows and ids starting at 1. *)
-Theorem C27_alloc_replace_partial : forall old req,
-  ~ In 0 (explicit_ids req) -> NoDup (explicit_ids req) -> clash_free 1 [] req = true ->
-  alloc_statement (replace_as_add do_bulk_add_or_replace old) [] req.
-Proof. exact alloc_partial_replace. Qed.
-
-(* The three hypotheses are exact: they hold whenever the conclusion holds for an accepted request. *)
-Theorem C27_alloc_partial_hypotheses_exact : forall rs req out rs', wf_rows rs ->
-  do_bulk_add_or_replace false rs req = Accepted out rs' ->
-  alloc_statement (do_bulk_add_or_replace false) rs req ->
-  ~ In 0 (explicit_ids req) /\ NoDup (explicit_ids req) /\ clash_free (next_row_id rs) [] req = true.
-Proof. exact alloc_partial_exact. Qed.
-
-(* A shape that implies the third hypothesis: explicit ids first, automatic slots last. *)
-Theorem C27_explicit_first_is_clash_free : forall req n,
-  explicit_first req = true -> clash_free n [] req = true.
-Proof. exact explicit_first_clash_free. Qed.
-
-(* With no hypothesis on the request at all: returned ids never collide with EXISTING rows, explicit ids are
-   honoured, automatic ids exceed every existing id, rows afterwards = existing + the positive returned ids. *)
-Theorem C27_alloc_unconditional_part : forall rs req out rs', wf_rows rs ->
-  do_bulk_add_or_replace false rs req = Accepted out rs' ->
-  fill (next_row_id rs) req = PyOk out /\
-  (forall r, In r out -> ~ In r rs) /\
-  Forall2 (fun r o => match explicit r with Some z => o = z | None => forall e, In e rs -> e < o end) req out /\
-  (forall r, In r rs' <-> In r rs \/ (In r out /\ 0 < r)) /\
-  wf_rows rs'.
-Proof. exact add_accepted_always. Qed.
-
-(* Rejections the unchanged code performs: over the limit; already existing (adds). *)
-Theorem C27_rejects_partial : forall rs req, wf_rows rs ->
-  ((exists z, In z (explicit_ids req) /\ z > MAX_ROW_ID) \/ (exists z, In z (explicit_ids req) /\ In z rs)) ->
-  (exists e, do_bulk_add_or_replace false rs req = Rejected e) /\
-  rows_after rs (do_bulk_add_or_replace false rs req) = rs.
-Proof. exact rejects_partial_add. Qed.
-
-Theorem C27_rejects_replace_partial : forall old req,
-  (exists z, In z (explicit_ids req) /\ z > MAX_ROW_ID) ->
-  (exists e, do_bulk_add_or_replace true old req = Rejected e) /\
-  rows_after old (do_bulk_add_or_replace true old req) = old.
-Proof. exact rejects_partial_replace. Qed.
-
-(* ---- the repaired code: both statements in full ------------------------------------------------------ *)
-
-Theorem C27_alloc_fixed : alloc_full do_bulk_add_or_replace_fixed.
+Theorem C27_alloc : alloc_full do_bulk_add_or_replace.
 Proof. exact alloc_full_fixed. Qed.
 
-Theorem C27_rejects_fixed : rejects_full do_bulk_add_or_replace_fixed.
+Theorem C27_rejects : rejects_full do_bulk_add_or_replace.
 Proof. exact rejects_full_fixed. Qed.
 
-(* it does not over-reject *)
-Theorem C27_accepts_fixed : forall replace rs req, wf_rows rs ->
+(* the same, unfolded for BulkAddRecord/AddRecord, for reading *)
+Theorem C27_alloc_add : forall rs req out rs', wf_rows rs ->
+  do_bulk_add_or_replace false rs req = Accepted out rs' ->
+  NoDup out /\
+  (forall r, In r out -> ~ In r rs) /\
+  Forall2 (fun r o => match explicit r with Some z => o = z | None => forall e, In e rs -> e < o end) req out /\
+  (forall r, In r rs' <-> In r rs \/ In r out) /\
+  wf_rows rs'.
+Proof. intros rs req out rs' Hwf H. exact (alloc_fixed rs req Hwf out rs' H). Qed.
+
+(* it does not over-reject: every request whose explicit ids are usable is accepted *)
+Theorem C27_accepts : forall replace rs req, wf_rows rs ->
   (forall z, In z (explicit_ids req) -> 0 < z <= MAX_ROW_ID /\ (replace = false -> ~ In z rs)) ->
   NoDup (explicit_ids req) ->
-  exists out rs', do_bulk_add_or_replace_fixed replace rs req = Accepted out rs'.
+  exists out rs', do_bulk_add_or_replace replace rs req = Accepted out rs'.
 Proof. exact accepts_fixed. Qed.
 
-(* and changes nothing for purely automatic requests *)
-Theorem C27_fixed_same_when_all_auto : forall replace rs req, explicit_ids req = [] ->
-  do_bulk_add_or_replace_fixed replace rs req = do_bulk_add_or_replace replace rs req.
-Proof. exact fixed_same_when_all_auto. Qed.
+(* ---- regression: the inputs that failed before fix e346da4 --------------------------------------------- *)
 
-(* ---- non-vacuity -------------------------------------------------------------------------------------- *)
+Example C27_regression_witnesses :
+  do_bulk_add_or_replace false [] [Some 5; Some 5] = Rejected PyValueError /\
+  do_bulk_add_or_replace false [] [Some 0] = Rejected PyValueError /\
+  do_bulk_add_or_replace false [1; 2] [None; Some 3; None] = Accepted [4; 3; 5] [1; 2; 4; 3; 5] /\
+  do_bulk_add_or_replace true [1; 2] [Some 5; Some 5] = Rejected PyValueError /\
+  do_bulk_add_or_replace true [1; 2] [Some 0] = Rejected PyValueError /\
+  do_bulk_add_or_replace true [1; 2] [None; Some 1; None] = Accepted [2; 1; 3] [2; 1; 3].
+Proof. exact regression_witnesses. Qed.
 
-(* hypotheses of C27_alloc_partial on a mixed request: explicit 7 and 9, a temporary id, a None *)
-Example C27_partial_nonvacuous :
+Example C27_regression_statements :
+  alloc_statement (do_bulk_add_or_replace false) [1; 2] [None; Some 3; None] /\
+  rejects_statement (do_bulk_add_or_replace false) true [] [Some 5; Some 5] /\
+  rejects_statement (do_bulk_add_or_replace false) true [] [Some 0].
+Proof. exact regression_statements. Qed.
+
+(* ---- non-vacuity --------------------------------------------------------------------------------------- *)
+
+(* a mixed request on a non-empty table: explicit 7 and 9, a temporary id, a None; and the hypotheses of
+   C27_accepts hold for it *)
+Example C27_alloc_nonvacuous :
   let rs := [1; 2; 5] in let req := [Some 7; Some 9; Some (-1); None] in
-  wf_rows rs /\ ~ In 0 (explicit_ids req) /\ NoDup (explicit_ids req) /\
-  clash_free (next_row_id rs) [] req = true /\
+  wf_rows rs /\ NoDup (explicit_ids req) /\
+  (forall z, In z (explicit_ids req) -> 0 < z <= MAX_ROW_ID /\ ~ In z rs) /\
   do_bulk_add_or_replace false rs req = Accepted [7; 9; 10; 11] [1; 2; 5; 7; 9; 10; 11].
 Proof.
   cbv zeta. split; [split; repeat constructor; cbn; intuition lia|].
-  split; [cbn; intuition lia|]. split; [repeat constructor; cbn; intuition lia|].
-  split; vm_compute; reflexivity.
+  split; [repeat constructor; cbn; intuition lia|].
+  split; [|vm_compute; reflexivity]. unfold MAX_ROW_ID. cbn. intuition lia.
 Qed.
 
-(* a request rejected by the unchanged code (existing id), and one over the limit *)
+(* rejected requests of each kind, and the largest allowed id *)
 Example C27_rejects_nonvacuous :
   do_bulk_add_or_replace false [1; 2] [None; Some 2] = Rejected PyAssertionError /\
   do_bulk_add_or_replace false [1; 2] [None; Some 1000001] = Rejected PyValueError /\
+  do_bulk_add_or_replace false [1; 2] [Some 4; None; Some 4] = Rejected PyValueError /\
+  do_bulk_add_or_replace false [1; 2] [None; Some 0] = Rejected PyValueError /\
   do_bulk_add_or_replace false [1; 2] [Some 1000000; None] = Accepted [1000000; 1000001] [1; 2; 1000000; 1000001].
 Proof. repeat split; vm_compute; reflexivity. Qed.
-
-(* the repaired code on the three witnesses: rejected, rejected, distinct ids *)
-Example C27_fixed_on_witnesses :
-  do_bulk_add_or_replace_fixed false [] [Some 5; Some 5] = Rejected PyValueError /\
-  do_bulk_add_or_replace_fixed false [] [Some 0] = Rejected PyValueError /\
-  do_bulk_add_or_replace_fixed false [1; 2] [None; Some 3; None] = Accepted [4; 3; 5] [1; 2; 4; 3; 5].
-Proof. exact fixed_on_witnesses. Qed.
